@@ -187,6 +187,7 @@ impl World {
             "rpool" => self.op_rpool(kv).await,
             "dateq" => self.op_dateq(kv).await,
             "frame1" => self.op_frame1(kv).await,
+            "dlock" => self.op_dlock(kv).await,
             "frame" => self.op_frame(kv),
             "invite" => self.op_invite(kv).await,
             _ => return None,
@@ -733,6 +734,42 @@ impl World {
         } else {
             "closed".into()
         }
+    }
+
+    /// `dlock n=<parallelism> k=<ComputeDailyLog messages>`: what every mutation sends after its reply
+    /// (`DbMessage::ComputeDailyLog`), k times, immediately followed by a data model update on the same text.
+    /// The writer thread acknowledges each daily-log computation with `blocking_send` into the actor's mailbox
+    /// (capacity = parallelism) while the actor, inside `update_data_model`, awaits a reply from that same
+    /// writer thread. Timing dependent: an exploration op (no model verdict), the oracle reports a wedge.
+    async fn op_dlock(&mut self, kv: &HashMap<String, String>) -> String {
+        use discret::verif_hooks::database::graph_database::DbMessage;
+        let (Some(n), Some(k)) = (kv.get("n").and_then(|x| x.parse::<usize>().ok()), kv.get("k").and_then(|x| x.parse::<usize>().ok()))
+        else {
+            return "bad-op".into();
+        };
+        if n == 0 || n > 8 || k > 64 {
+            return "bad-op".into();
+        }
+        let Some(svc) = self.start(n).await else { return "no-instance".into() };
+        let _ = svc.mutate("mutate probeinit { Probe { n: 1 } }", None).await;
+        let sender = svc.sender.clone();
+        let feeder = tokio::spawn(async move {
+            for _ in 0..k {
+                let _ = sender.send(DbMessage::ComputeDailyLog()).await;
+            }
+            let (reply, receive) = tokio::sync::oneshot::channel();
+            let _ = sender.send(DbMessage::DataModelUpdate(MODEL.to_string(), reply)).await;
+            tokio::time::timeout(Duration::from_secs(5), receive).await.is_ok()
+        });
+        let answered = matches!(tokio::time::timeout(Duration::from_secs(8), feeder).await, Ok(Ok(true)));
+        let alive = answered && Self::probe(&svc, 1).await;
+        if !alive {
+            self.flag(
+                "actor-writer-deadlock",
+                &format!("instance with mailbox capacity {} stopped answering after {} daily-log requests followed by a data model update", n, k),
+            );
+        }
+        "explored".into()
     }
 
     // ---------------------------------------------------------------- byte-level exploration (no model verdict)
